@@ -414,7 +414,8 @@ fn render(rng: &mut Rng, f: &LFile, k: &Knobs) -> Vec<u8> {
             if i + 1 < all.len() {
                 if depth > 0 && rng.chance(1, 2) {
                     if k.comments && rng.bool() {
-                        out.push_str(" ; inner ) comment \"");
+                        // a semicolon starts a comment wherever it stands outside a quoted string, also right behind a token
+                        out.push_str(if rng.bool() { " ; inner ) comment \"" } else { ";inner ) comment \"" });
                     }
                     out.push_str(nl);
                     out.push_str(&sep(rng, k));
@@ -430,7 +431,7 @@ fn render(rng: &mut Rng, f: &LFile, k: &Knobs) -> Vec<u8> {
             out.push_str(" )");
         }
         if k.comments && rng.bool() {
-            out.push_str(" ; trailing comment ( \\");
+            out.push_str(if rng.bool() { " ; trailing comment ( \\" } else { ";trailing comment ( \\" });
         }
         if ri + 1 < f.recs.len() || !k.no_final_newline {
             out.push_str(nl);
